@@ -57,7 +57,8 @@ class TcpDriver(CRTPDriver):
 
         self.in_queue = queue.Queue()
 
-        self.cpx = CPX(SocketTransport(parse.hostname, parse.port))
+        self.cpx = CPX(SocketTransport(parse.hostname, parse.port),
+                       [CPXFunction.CRTP])
 
         self._thread = _CPXReceiveThread(self.cpx, self.in_queue,
                                          linkErrorCallback)
